@@ -62,16 +62,53 @@ fn observe_or(prefix: &str, what: &str, d: Dictionary, probes: &[String]) -> Res
 }
 
 fn gen_dict_world(rng: &mut Rng, plan: &mut Plan, n_users: usize) -> WorldInfo {
-    let info = gen_world(rng, plan, &WorldCfg::default());
+    // sizes beyond the small ones now and then: more than 32768 matrix cells (182..=300 ids per
+    // side), a user lexicon file of more than 64 KiB
+    let cfg = WorldCfg {
+        huge_dim_one_in: 250,
+        extreme_ids_one_in: 2500,
+        ..WorldCfg::default()
+    };
+    let info = gen_world(rng, plan, &cfg);
     for i in 0..n_users {
-        plan.set_file(
-            &format!("user{i}.csv"),
-            gen_user_csv(&mut rng.fork(), &info, &format!("U{i}-")),
-        );
+        let mut csv = gen_user_csv(&mut rng.fork(), &info, &format!("U{i}-"));
+        let mut r = rng.fork();
+        if r.chance(1, 150) {
+            // filler rows first, so that the ordinary rows (whose surfaces the probes use) lie
+            // beyond the first 64 KiB of the file
+            let mut filler = String::new();
+            let mut k = 0;
+            while filler.len() < 66_000 + r.usize(70_000) {
+                let pad = "p".repeat(if r.chance(1, 2) { 20 + r.usize(60) } else { 1000 + r.usize(2900) }); // a lexicon field may hold at most 4096 bytes
+                filler.push_str(&format!(
+                    "填{k}x,{},{},{},FILL{k},{pad}\n",
+                    r.usize(info.num_left),
+                    r.usize(info.num_right),
+                    r.range(-500, 500)
+                ));
+                k += 1;
+            }
+            csv = filler + &csv;
+            plan.set_param("huge_user_csv", 1);
+        }
+        plan.set_file(&format!("user{i}.csv"), csv);
     }
     let probes = gen_probes(&mut rng.fork(), &info.surfaces, 5);
     plan.set_file("probes", probes.join("\n"));
     info
+}
+
+/// Size probes shared by the three scenarios of this file.
+fn size_probes(plan: &Plan, ctx: &mut Ctx) {
+    if plan.param("huge_user_csv") == 1 {
+        ctx.count("probe.user_csv_over_64k");
+    }
+    if plan.param("extreme_ids") == 1 {
+        ctx.count("probe.id_65535_in_use");
+    }
+    if plan.param("huge_dims") == 1 {
+        ctx.count("probe.more_than_32768_id_pairs");
+    }
 }
 
 fn map_op(rng: &mut Rng, info: &WorldInfo) -> Op {
@@ -157,6 +194,7 @@ impl Scenario for RoundTripScenario {
     }
 
     fn execute(&self, plan: &Plan, ctx: &mut Ctx) -> Check {
+        size_probes(plan, ctx);
         let probes = probes_of(plan);
         let order_seed = plan.param("order_seed") as u64;
         let original = build_plain("C05", &plan.files, plan.param("conn"), order_seed, ctx)?;
@@ -363,6 +401,9 @@ impl Scenario for RoundTripScenario {
             real: vec!["Dictionary::{write,read,reset_user_lexicon_from_reader,map_connection_ids_from_iter}, all Encode/Decode impls, tokenizer"],
             stub: vec!["files/disk (FaultySink/FaultyReader over memory)"],
             probes: vec![
+                "probe.more_than_32768_id_pairs",
+                "probe.id_65535_in_use",
+                "probe.user_csv_over_64k",
                 "probe.roundtrip_of_roundtrip",
                 "probe.roundtrip_with_mapper",
                 "probe.user_after_roundtrip_with_mapper",
@@ -395,8 +436,12 @@ fn new_of_old(list: &[u16], dim: usize) -> Vec<u16> {
 }
 
 fn bad_mapping(kind: i64, dim_l: usize, dim_r: usize, salt: u64) -> (Vec<u16>, Vec<u16>, &'static str) {
-    let idl: Vec<u16> = (1..dim_l as u16).collect();
-    let idr: Vec<u16> = (1..dim_r as u16).collect();
+    // (a side may have 65536 ids: ranges over usize, then narrowed)
+    let idl: Vec<u16> = (1..dim_l).map(|x| x as u16).collect();
+    let idr: Vec<u16> = (1..dim_r).map(|x| x as u16).collect();
+    // an id beyond the range; with 65536 ids there is none: the last id once more (a repeated id
+    // is invalid as well)
+    let beyond = |dim: usize, plus: usize| -> u16 { u16::try_from(dim + plus).unwrap_or((dim - 1) as u16) };
     let left_side = salt % 2 == 0;
     let mut l = idl.clone();
     let mut r = idr.clone();
@@ -428,15 +473,15 @@ fn bad_mapping(kind: i64, dim_l: usize, dim_r: usize, salt: u64) -> (Vec<u16>, V
         }
         3 => {
             // too long: one id beyond the range appended (a valid permutation of a larger range)
-            t.push(dim as u16);
+            t.push(beyond(dim, 0));
             "too long"
         }
         4 => {
             // id >= dimension replacing a valid one
             if t.is_empty() {
-                t.push(dim as u16 + 3)
+                t.push(beyond(dim, 3))
             } else {
-                t[0] = dim as u16 + 3
+                t[0] = beyond(dim, 3)
             }
             "id out of range"
         }
@@ -494,6 +539,7 @@ impl Scenario for MappingScenario {
     }
 
     fn execute(&self, plan: &Plan, ctx: &mut Ctx) -> Check {
+        size_probes(plan, ctx);
         let probes = probes_of(plan);
         let order_seed = plan.param("order_seed") as u64;
         let conn = plan.param("conn");
@@ -502,8 +548,8 @@ impl Scenario for MappingScenario {
         let nl = r_dict.as_ref().unwrap().verif_num_left();
         let nr = r_dict.as_ref().unwrap().verif_num_right();
         // composed permutation: original id -> current id in M
-        let mut pl: Vec<u16> = (0..nl as u16).collect();
-        let mut pr: Vec<u16> = (0..nr as u16).collect();
+        let mut pl: Vec<u16> = (0..nl).map(|x| x as u16).collect();
+        let mut pr: Vec<u16> = (0..nr).map(|x| x as u16).collect();
         let mut history: Vec<HEvent> = vec![];
         let mut shape = String::new();
         let none = Fault::default();
@@ -684,6 +730,9 @@ impl Scenario for MappingScenario {
             real: vec!["Dictionary::map_connection_ids_from_iter, ConnIdMapper, connector/lexicon/unknown-handler remapping, user-lexicon loading, write/read"],
             stub: vec!["mapping files and CSVs (in-memory)"],
             probes: vec![
+                "probe.more_than_32768_id_pairs",
+                "probe.id_65535_in_use",
+                "probe.user_csv_over_64k",
                 "probe.map_map",
                 "probe.map_then_user",
                 "probe.user_then_map",
@@ -828,6 +877,7 @@ impl Scenario for UserLexScenario {
     }
 
     fn execute(&self, plan: &Plan, ctx: &mut Ctx) -> Check {
+        size_probes(plan, ctx);
         let probes = probes_of(plan);
         let order_seed = plan.param("order_seed") as u64;
         let conn = plan.param("conn");
@@ -1023,6 +1073,9 @@ impl Scenario for UserLexScenario {
             real: vec!["Dictionary::reset_user_lexicon_from_reader, Lexicon::{from_reader,verify,map_connection_ids}, tokenizer candidate generation, lattice"],
             stub: vec!["user CSV files (FaultyReader over memory)"],
             probes: vec![
+                "probe.more_than_32768_id_pairs",
+                "probe.id_65535_in_use",
+                "probe.user_csv_over_64k",
                 "probe.replace",
                 "probe.clear",
                 "probe.clear_when_none",
